@@ -233,7 +233,7 @@ def t_classify(n, gmax, dmode, shard, nshards):
 	ci = 0
 	for parent in R.forests(n):
 		taxa = taxo.build_taxa(parent)
-		for thr in itertools.product(THRS, repeat=n):
+		for thr in itertools.product(THRS + [0.0] if n <= 3 else THRS, repeat=n):      # 0.0: falsy but present
 			if all(t is None for t in thr):
 				continue
 			ci += 1
